@@ -7,16 +7,18 @@ src=$1; pkg=$2; re=$3; id=$4; shift 4
 export GOFLAGS=-mod=mod GOPROXY=off GOSUMDB=off GOTOOLCHAIN=local
 G=/root/go/pkg/mod/golang.org/toolchain@v0.0.1-go1.24.2.linux-amd64/bin/go
 W=/tmp/seedeval-$id
+# tests run in a private network namespace (loopback only): several confirmations can run side by side
+nt() { unshare -n bash -c 'ip link set lo up 2>/dev/null; "$@"' -- "$@"; }
 # SEEDEVAL_PHASE=confirm: only step 1 (never touches /repo's working tree); =check: only step 2, reusing step 1's verdict
 if [ "${SEEDEVAL_PHASE:-}" != check ]; then
 rm -rf $W; git -C /repo worktree add -q --detach $W HEAD || exit 2
 cp $src/demo_test.go $W/$pkg/zz_seed_demo_test.go
-(cd $W && $G test -vet=off -count=1 -run "$re" ./$pkg/ > /tmp/seedeval-$id.unchanged.log 2>&1); u=$?
+(cd $W && nt $G test -vet=off -count=1 -run "$re" ./$pkg/ > /tmp/seedeval-$id.unchanged.log 2>&1); u=$?
 git -C $W apply $src/patch.diff || { echo "PATCH DOES NOT APPLY"; git -C /repo worktree remove --force $W; exit 2; }
 (cd $W && $G build ./... > /tmp/seedeval-$id.build.log 2>&1); b=$?
-(cd $W && $G test -vet=off -count=1 -run "$re" ./$pkg/ > /tmp/seedeval-$id.changed.log 2>&1); c=$?
+(cd $W && nt $G test -vet=off -count=1 -run "$re" ./$pkg/ > /tmp/seedeval-$id.changed.log 2>&1); c=$?
 rm $W/$pkg/zz_seed_demo_test.go
-(cd $W && $G test -vet=off -count=1 -timeout 20m ./$pkg/ 2>&1 | grep "^--- FAIL" | grep -v "TestPortalWireProtocol \|TestTraceContentLookup " > /tmp/seedeval-$id.suite.log); 
+(cd $W && nt $G test -vet=off -count=1 -timeout 20m ./$pkg/ 2>&1 | grep "^--- FAIL" | grep -v "TestPortalWireProtocol \|TestTraceContentLookup " > /tmp/seedeval-$id.suite.log); 
 s=$(wc -l < /tmp/seedeval-$id.suite.log)
 echo "CONFIRM id=$id demo_unchanged_exit=$u (want 0) build_exit=$b (want 0) demo_changed_exit=$c (want !=0) package_suite_new_failures=$s (want 0)"
 git -C /repo worktree remove --force $W
